@@ -403,8 +403,9 @@ Definition enc_creds (c : creds) : list Z :=
 Definition exn_code (e : exn) : Z :=
   match e with PermissionError => 1 | UnboundLocalError => 2 | ConfigError => 3 end.
 
+(* a call that raises kills the worker: only the exception class is observed, not the credentials it died with *)
 Definition obs_outcome (o : outcome) : list Z :=
-  match o with Done c => 0 :: enc_creds c | Raised e c => exn_code e :: enc_creds c end.
+  match o with Done c => 0 :: enc_creds c | Raised e _ => [exn_code e] end.
 
 Definition mk (ru eu su rg eg sg : Z) (gs : list Z) : creds :=
   {| ruid := ru; euid := eu; suid := su; rgid := rg; egid := eg; sgid := sg; groups := gs |}.
@@ -414,7 +415,7 @@ Definition obs_cell (t : dbtab) (m : creds) (us gs : spelling) (ig : bool) : lis
   let db := db_of_tab t in
   match validate_user db m us, validate_group db m gs with
   | Some u, Some g => obs_outcome (set_owner_process db u g ig m)
-  | _, _ => exn_code ConfigError :: enc_creds m
+  | _, _ => [exn_code ConfigError]
   end.
 
 Definition enc_wevent (e : wevent) : list Z :=
@@ -435,7 +436,7 @@ Definition obs_worker (t : dbtab) (m : creds) (uid gid : Z) (ig reload : bool) (
   | None => [0]
   | Some tmp =>
     let w := init_process db uid gid ig reload tmp m in
-    enc_file (Some tmp) ++ enc_list enc_wevent (w_log w) ++ enc_creds (w_creds w)
+    enc_file (Some tmp) ++ enc_list enc_wevent (w_log w) ++ (if w_dead w then [] else enc_creds (w_creds w))
   end.
 
 (* the unix socket: owner/group/mode after bind, and whether the dropped worker identity may connect *)
